@@ -417,7 +417,7 @@ func runFaults(r *engine.Run, cases []faultCase) bool {
 					err  error
 				}
 				var a ack
-				timer.Reset(20 * time.Second)
+				timer.Reset(60 * time.Second)
 				select {
 				case l, ok := <-w.acks:
 					if !timer.Stop() {
@@ -428,7 +428,7 @@ func runFaults(r *engine.Run, cases []faultCase) bool {
 					}
 					a.line = l
 				case <-timer.C:
-					r.Cap("a case exceeded the 20 s engine limit (reported, not judged): " + c.origin)
+					r.Cap("a case exceeded the 60 s engine limit (reported, not judged): " + c.origin)
 					w.stop()
 					w = nil
 					continue
